@@ -44,7 +44,11 @@ EXTRA_SYM = collections.OrderedDict([
     ("\\n", [("e", "n")]), ("\\'", [("e", "'")]), ("\\U0001F600", [("U", "0001F600")]),
     ("\U0001F600", [("c", "\U0001F600")]), (".", [("c", ".")]), ("%", [("c", "%")]), ("'", [("c", "'")]),
     ("^", [("c", "^")]), ("http://www.w3.org/2001/XMLSchema#", [("c", x) for x in XSD]),
+    # characters that str.splitlines() / str.strip() treat specially but N-Triples allows inside a literal
+    ("\x0c", [("c", "\x0c")]), ("\u2028", [("c", "\u2028")]), ("\x85", [("c", "\x85")]), ("\x1c", [("c", "\x1c")]),
+    ("\x0b", [("c", "\x0b")]),
 ])
+FOCUS_ALPHA = ALPHA + ["\t", "rdf:", "dt:", ".", "\x0c", "\u2028", "\x85"]
 ALLSYM = dict(SYM)
 ALLSYM.update(EXTRA_SYM)
 
@@ -625,7 +629,7 @@ def run(tier, seed, replay=None):
         per = max(1, min(40, len(forms) // (core.NCPU * 8)))
         rdf_every = 7
         args = [("main", ch, rdf_every, 997, known) for ch in chunks(forms, per)]
-        focus_forms = list(lex_forms(2, ALPHA + ["\t", "rdf:", "dt:", "."]))
+        focus_forms = list(lex_forms(2, FOCUS_ALPHA))
         args += [("focus", ch, 5, 499, known) for ch in chunks(focus_forms, 6)]
         for r in pool_run(_work_forms, args):
             total.merge(r)
@@ -686,10 +690,11 @@ def run(tier, seed, replay=None):
         "exhaustive": exhaustive,
         "exhaustive_space": "all lexical forms of <= %d symbols over the %d-symbol alphabet %r x %d suffix forms x %d "
                             "separator layouts x %d blank/no-blank before the dot x %d comment variants x %d subjects; "
-                            "plus all forms of <= 2 symbols over 20 symbols x %d suffixes x 3 pre-dot x %d comments; "
+                            "plus all forms of <= 2 symbols over %d symbols x %d suffixes x 3 pre-dot x %d comments; "
                             "plus node objects; plus random statements and random documents (both line readers)"
                             % (maxitems, len(ALPHA), ALPHA, len(SUFFIXES), len(SEPS), len(PREDOTS), len(COMMENTS3),
-                               len(SUBJECTS), len(SUFFIXES) + len(SUFFIXES_FOCUS), len(COMMENTS_FOCUS) + 1),
+                               len(SUBJECTS), len(FOCUS_ALPHA), len(SUFFIXES) + len(SUFFIXES_FOCUS),
+                               len(COMMENTS_FOCUS) + 1),
         "valid_lines": total.valid,
         "in_C06_dom": total.in_dom,
         "outside_dom_but_right": total.out_dom_right,
